@@ -266,6 +266,18 @@ def format_(I, v, spec):
     if isinstance(v, SStr):
         if spec == "":
             return v
+        import re as _re
+
+        m = _re.fullmatch(r"(?:(.)?([<>^]))?(\d+)", spec)
+        n = v.fixed_len()
+        if m and n is not None:
+            fill, align, width = m.group(1) or " ", m.group(2) or "<", int(m.group(3))
+            pad = max(0, width - n)
+            if align == "<":
+                return mk_str([v, fill * pad])
+            if align == ">":
+                return mk_str([fill * pad, v])
+            return mk_str([fill * (pad // 2), v, fill * (pad - pad // 2)])
         raise _I().Unsupported(f"format spec {spec!r} on symbolic string")
     if isinstance(v, SBytes):
         raise _I().Unsupported("format of symbolic bytes")
@@ -980,6 +992,10 @@ def sym_method(I, obj, name, args, kwargs):
         if name in ("decode", "encode"):
             return obj
         raise X.Unsupported(f"str.{name} on symbol")
+    if isinstance(obj, _HexBytes):
+        if name == "decode":
+            return mk_str([FmtInt(term(x) if not isinstance(x, int) else z3.IntVal(x), "02x", width=2) for x in obj.b.items])
+        raise X.Unsupported(f"hexlify(...).{name}")
     if isinstance(obj, SBytes):
         if name == "decode":
             raise X.Unsupported("decode of symbolic bytes")
@@ -1000,6 +1016,24 @@ def m_str_join(I, args, kwargs):
             raise _I().PyExc(TypeError(f"sequence item {i}: expected str instance, {pytype(x).__name__} found"))
         out.append(x)
     return mk_str(out)
+
+
+def m_bytes_join(I, args, kwargs):
+    sep, it = args
+    items = yield from I.iterate_all(it)
+    out = []
+    for i, x in enumerate(items):
+        if i:
+            out.extend(list(sep))
+        if isinstance(x, SBytes):
+            out.extend(x.items)
+        elif isinstance(x, bytes):
+            out.extend(list(x))
+        else:
+            raise _I().PyExc(TypeError(f"sequence item {i}: expected a bytes-like object, {pytype(x).__name__} found"))
+    if all(isinstance(x, int) for x in out):
+        return bytes(out)
+    return SBytes(out)
 
 
 def m_str_format(I, args, kwargs):
@@ -1110,6 +1144,8 @@ def lookup(fn):
         if isinstance(slf, str) and fn.__name__ in ("join", "format"):
             mm = _METHOD_MODELS[(str, fn.__name__)]
             return lambda I, args, kwargs: mm(I, (slf,) + tuple(args), kwargs)
+        if isinstance(slf, bytes) and fn.__name__ == "join":
+            return lambda I, args, kwargs: m_bytes_join(I, (slf,) + tuple(args), kwargs)
     return None
 
 
